@@ -356,8 +356,13 @@ pub fn worker_main(prop: &dyn Property, tier: Tier, seed: u64, k: u64, n: u64, o
     });
 
     // one evaluation; returns Some(failure) for an unknown failure
+    let last_checkpoint = std::cell::Cell::new(Instant::now());
     let eval = |bytes: &[u8]| -> Option<Failure> {
         progress.borrow_mut().note(bytes);
+        if last_checkpoint.get().elapsed() > Duration::from_secs(60) {
+            last_checkpoint.set(Instant::now());
+            write_worker_result(out, k, &stats.borrow(), &[], start.elapsed().as_secs_f64(), None, false);
+        }
         let out = run_guarded(prop, bytes, tier);
         let mut st = stats.borrow_mut();
         let frozen = st.frozen;
@@ -417,15 +422,23 @@ pub fn worker_main(prop: &dyn Property, tier: Tier, seed: u64, k: u64, n: u64, o
         }
     }
 
-    if failure.is_none() && my_cases > 0 {
+    // A failure that proptest reports is re-run from its shrunk form. If that re-run is a known
+    // finding or passes, the first failure was not stable (e.g. a probe that timed out on a busy
+    // machine while shrinking reached a known crash): it is recorded, and the campaign goes on
+    // with a fresh runner for the remaining cases instead of ending the worker.
+    let mut unstable: Vec<String> = vec![];
+    let mut round = 0u64;
+    while failure.is_none() && stats.borrow().cases < my_cases && round < 50 {
+        let remaining = my_cases - stats.borrow().cases;
         let config = Config {
-            cases: my_cases as u32,
+            cases: remaining as u32,
             failure_persistence: None,
-            rng_seed: RngSeed::Fixed(seed.wrapping_mul(0x9E3779B97F4A7C15).wrapping_add(k)),
+            rng_seed: RngSeed::Fixed(seed.wrapping_mul(0x9E3779B97F4A7C15).wrapping_add(k).wrapping_add(round.wrapping_mul(0x51_7C_C1_B7))),
             max_shrink_iters: 4000,
             max_shrink_time: 120_000,
             ..Config::default()
         };
+        round += 1;
         let mut runner = TestRunner::new(config);
         let strat = pvec(any::<u8>(), 0..prop.max_len());
         let res = runner.run(&strat, |bytes| match eval(&bytes) {
@@ -433,15 +446,25 @@ pub fn worker_main(prop: &dyn Property, tier: Tier, seed: u64, k: u64, n: u64, o
             Some(f) => Err(TestCaseError::fail(f.sig)),
         });
         match res {
-            Ok(()) => {}
-            Err(TestError::Fail(_, minimal)) => {
+            Ok(()) => break,
+            Err(TestError::Fail(reason, minimal)) => {
                 // re-run the minimal value to obtain its own failure description
+                stats.borrow_mut().frozen = true;
                 let out = run_guarded(prop, &minimal, tier);
-                let f = match out.verdict {
-                    Verdict::Fail(f) => f,
-                    _ => Failure::new("flaky", "flaky", "minimal case did not fail on re-run"),
-                };
-                failure = Some((minimal, f));
+                match out.verdict {
+                    Verdict::Fail(f) if !known.iter().any(|kf| kf.sig == f.sig) => failure = Some((minimal, f)),
+                    other => {
+                        let what = match other {
+                            Verdict::Fail(f) => format!("known finding {}", f.sig),
+                            Verdict::Pass => "pass".to_string(),
+                            Verdict::Discard(w) => format!("discard {}", w),
+                        };
+                        if unstable.len() < 20 {
+                            unstable.push(format!("first failure '{}', shrunk form re-run: {}", reason, what));
+                        }
+                        stats.borrow_mut().frozen = false;
+                    }
+                }
             }
             Err(TestError::Abort(r)) => {
                 failure = Some((vec![], Failure::new("abort", "proptest_abort", format!("{:?}", r))));
@@ -450,29 +473,42 @@ pub fn worker_main(prop: &dyn Property, tier: Tier, seed: u64, k: u64, n: u64, o
     }
 
     let st = stats.into_inner();
+    let failure_json = failure.as_ref().map(|(b, f)| {
+        json!({
+            "choices": hex(b),
+            "failure": f.to_json(),
+            "decoded": trim_sample(prop.describe(b)),
+        })
+    });
+    write_worker_result(out, k, &st, &unstable, start.elapsed().as_secs_f64(), failure_json, true);
+}
+
+/// the result file of a worker; also written as a checkpoint (complete = false) about once a
+/// minute, so that what a worker had covered is not lost if its process dies
+fn write_worker_result(out: &Path, k: u64, st: &Stats, unstable: &[String], wall: f64, failure: Option<J>, complete: bool) {
     let res = json!({
         "worker": k,
+        "complete": complete,
         "cases": st.cases,
         "execs": st.execs,
         "discards": st.discards,
         "labels": st.labels,
         "known_hits": st.known_hits,
         "nontrivial_count": st.nontrivial.len(),
+        "unstable": unstable,
         "samples": st.samples,
-        "wall_s": start.elapsed().as_secs_f64(),
-        "failure": failure.as_ref().map(|(b, f)| json!({
-            "choices": hex(b),
-            "failure": f.to_json(),
-            "decoded": trim_sample(prop.describe(b)),
-        })),
+        "wall_s": wall,
+        "failure": failure,
     });
     // the fingerprints of the non-trivial cases go to a binary side file (a long run has millions)
     let mut raw = Vec::with_capacity(st.nontrivial.len() * 8);
     for x in &st.nontrivial {
         raw.extend_from_slice(&x.to_le_bytes());
     }
-    std::fs::write(out.with_extension("fp"), raw).expect("write worker fingerprints");
-    std::fs::write(out, serde_json::to_vec(&res).unwrap()).expect("write worker result");
+    let tmp = out.with_extension("tmp");
+    if std::fs::write(out.with_extension("fp"), raw).is_ok() && std::fs::write(&tmp, serde_json::to_vec(&res).unwrap()).is_ok() {
+        let _ = std::fs::rename(&tmp, out);
+    }
 }
 
 // ---------------------------------------------------------------------------------------------
@@ -495,6 +531,34 @@ pub fn one_main(prop: &dyn Property, tier: Tier, file: &Path) -> i32 {
             3
         }
         _ => 0,
+    }
+}
+
+
+/// CPU seconds (user + system) a process has consumed so far; None if it is gone
+pub fn proc_cpu_secs(pid: u32) -> Option<f64> {
+    let stat = std::fs::read_to_string(format!("/proc/{}/stat", pid)).ok()?;
+    // the command name may contain spaces: fields are counted after the closing parenthesis
+    let rest = &stat[stat.rfind(')')? + 1..];
+    let f: Vec<&str> = rest.split_whitespace().collect();
+    let ticks: f64 = f.get(11)?.parse::<f64>().ok()? + f.get(12)?.parse::<f64>().ok()?;
+    let hz = unsafe { libc::sysconf(libc::_SC_CLK_TCK) } as f64;
+    Some(ticks / if hz > 0.0 { hz } else { 100.0 })
+}
+
+/// A case is taken to hang when the process has burnt `timeout` of CPU time without finishing it,
+/// or has made no progress for WALL_FACTOR x `timeout` of wall-clock time (blocked, or starved
+/// on a machine that is heavily oversubscribed): wall-clock alone is not a correctness signal.
+pub const WALL_FACTOR: u32 = 20;
+
+pub fn stalled(timeout: Duration, wall: Duration, cpu_then: Option<f64>, cpu_now: Option<f64>) -> bool {
+    if wall > timeout * WALL_FACTOR {
+        return true;
+    }
+    match (cpu_then, cpu_now) {
+        (Some(a), Some(b)) => wall > timeout && b - a > timeout.as_secs_f64(),
+        // no CPU reading: fall back to a generous wall-clock rule
+        _ => wall > timeout * 4,
     }
 }
 
@@ -522,6 +586,7 @@ fn run_file_isolated(prop: &dyn Property, tier: Tier, hexfile: &Path, timeout: D
         .spawn()
         .expect("spawn one");
     let start = Instant::now();
+    let cpu0 = proc_cpu_secs(child.id());
     loop {
         match child.try_wait().unwrap() {
             Some(status) => {
@@ -549,7 +614,7 @@ fn run_file_isolated(prop: &dyn Property, tier: Tier, hexfile: &Path, timeout: D
                 };
             }
             None => {
-                if start.elapsed() > timeout {
+                if start.elapsed() > timeout && stalled(timeout, start.elapsed(), cpu0, proc_cpu_secs(child.id())) {
                     let _ = child.kill();
                     let _ = child.wait();
                     return OneResult::Hang;
@@ -711,6 +776,7 @@ pub fn parent_main(prop: &dyn Property, tier: Tier) -> i32 {
         progress: PathBuf,
         last_counter: u64,
         last_change: Instant,
+        cpu_at_change: Option<f64>,
         done: bool,
         abnormal: Option<OneResult>,
     }
@@ -732,6 +798,7 @@ pub fn parent_main(prop: &dyn Property, tier: Tier) -> i32 {
             progress,
             last_counter: 0,
             last_change: Instant::now(),
+            cpu_at_change: None,
             done: false,
             abnormal: None,
         });
@@ -761,10 +828,11 @@ pub fn parent_main(prop: &dyn Property, tier: Tier) -> i32 {
                         .filter(|b| b.len() >= 8)
                         .map(|b| u64::from_le_bytes(b[0..8].try_into().unwrap()))
                         .unwrap_or(0);
-                    if counter != w.last_counter {
+                    if counter != w.last_counter || w.cpu_at_change.is_none() {
                         w.last_counter = counter;
                         w.last_change = Instant::now();
-                    } else if w.last_change.elapsed() > case_timeout {
+                        w.cpu_at_change = proc_cpu_secs(w.child.id());
+                    } else if w.last_change.elapsed() > case_timeout && stalled(case_timeout, w.last_change.elapsed(), w.cpu_at_change, proc_cpu_secs(w.child.id())) {
                         let _ = w.child.kill();
                         let _ = w.child.wait();
                         w.done = true;
@@ -785,6 +853,8 @@ pub fn parent_main(prop: &dyn Property, tier: Tier) -> i32 {
     let mut discards: BTreeMap<String, u64> = BTreeMap::new();
     let mut labels: BTreeMap<String, u64> = BTreeMap::new();
     let mut nontrivial: Vec<u64> = vec![];
+    let mut unstable_failures: Vec<String> = vec![];
+    let mut workers_ended_early = 0u64;
     let mut samples: Vec<J> = vec![];
     let mut shrunk_kinds: BTreeSet<String> = BTreeSet::new();
     for w in ws.iter() {
@@ -846,10 +916,12 @@ pub fn parent_main(prop: &dyn Property, tier: Tier) -> i32 {
                     }
                 }
             }
-            continue;
+            workers_ended_early += 1;
         }
         let Ok(s) = std::fs::read(&w.out) else {
-            inconclusive.push("worker result missing".into());
+            if w.abnormal.is_none() {
+                inconclusive.push("worker result missing".into());
+            }
             continue;
         };
         let Ok(j) = serde_json::from_slice::<J>(&s) else {
@@ -862,6 +934,13 @@ pub fn parent_main(prop: &dyn Property, tier: Tier) -> i32 {
             if let Some(o) = j[key].as_object() {
                 for (k, v) in o {
                     *map.entry(k.clone()).or_default() += v.as_u64().unwrap_or(0);
+                }
+            }
+        }
+        if let Some(a) = j["unstable"].as_array() {
+            for x in a {
+                if let Some(t) = x.as_str() {
+                    unstable_failures.push(t.to_string());
                 }
             }
         }
@@ -959,6 +1038,8 @@ pub fn parent_main(prop: &dyn Property, tier: Tier) -> i32 {
             "excluded_by_known_finding": known_hits,
             "workers": nworkers,
             "inconclusive": inconclusive,
+            "unstable_failures_not_reproduced_after_shrinking": unstable_failures,
+            "workers_ended_early": workers_ended_early,
         },
         "assumptions": prop.assumptions(),
         "wall_s": wall,
@@ -1073,10 +1154,14 @@ pub fn fork_probe(timeout: Duration, f: impl FnOnce()) -> Probe {
         if pid == 0 {
             // child: silence the "has overflowed its stack" message
             libc::close(2);
+            // no core file for a probe that is expected to be able to die
+            let no_core = libc::rlimit { rlim_cur: 0, rlim_max: 0 };
+            libc::setrlimit(libc::RLIMIT_CORE, &no_core);
             f();
             libc::_exit(0);
         }
         let start = Instant::now();
+        let cpu0 = proc_cpu_secs(pid as u32);
         loop {
             let mut status: libc::c_int = 0;
             let r = libc::waitpid(pid, &mut status, libc::WNOHANG);
@@ -1086,7 +1171,7 @@ pub fn fork_probe(timeout: Duration, f: impl FnOnce()) -> Probe {
                 }
                 return Probe::Returned;
             }
-            if start.elapsed() > timeout {
+            if start.elapsed() > timeout && stalled(timeout, start.elapsed(), cpu0, proc_cpu_secs(pid as u32)) {
                 libc::kill(pid, libc::SIGKILL);
                 libc::waitpid(pid, &mut status, 0);
                 return Probe::Timeout;
